@@ -2581,22 +2581,21 @@ func (r Stack) Defrag(max ...int) Stack {
 
 			r.stack.defrag(m) // defrag the stack itself
 
-			// If the receiver instance is judged as nesting, we'll
-			// recurse through stack, and defrag any other suitable
+			// Recurse through stack, and defrag any other suitable
 			// candidates for the operation. Targets are any Stack
 			// or Condition instances, OR their aliased equivalents.
-			if r.IsNesting() {
-				for i := 0; i < r.Len(); i++ {
-					slice, _ := r.Index(i)
-					if sub, ok := stackTypeAliasConverter(slice); ok {
-						// Instance is Stack/Stack alias
+			// (IsNesting only knows about Stacks held directly: it
+			// cannot gate the Condition expressions handled here.)
+			for i := 0; i < r.Len(); i++ {
+				slice, _ := r.Index(i)
+				if sub, ok := stackTypeAliasConverter(slice); ok {
+					// Instance is Stack/Stack alias
+					sub.Defrag(m)
+				} else if cub, ok := conditionTypeAliasConverter(slice); ok {
+					// Instance is Condition/Condition alias
+					if sub, ok := stackTypeAliasConverter(cub.Expression()); ok {
+						// Condition expression contains a Stack/Stack alias
 						sub.Defrag(m)
-					} else if cub, ok := conditionTypeAliasConverter(slice); ok {
-						// Instance is Condition/Condition alias
-						if sub, ok := stackTypeAliasConverter(cub.Expression()); ok {
-							// Condition expression contains a Stack/Stack alias
-							sub.Defrag(m)
-						}
 					}
 				}
 			}
